@@ -87,10 +87,18 @@ class Lock:
 # ------------------------------------------------------------------------------
 # translator (tie (a))
 # ------------------------------------------------------------------------------
-GEN = [
-    # (output file, mode, sources relative to REPO)
-    ("GenPipe.v", "pipe", ["internal/pipe/pipe.go"]),
-]
+def gen_table():
+    """(output file, mode, sources relative to REPO): collected from the GEN lists of tools/runner/props/c*.py"""
+    import importlib
+    table = []
+    pdir = os.path.join(os.path.dirname(os.path.abspath(__file__)), "props")
+    for n in sorted(os.listdir(pdir)):
+        if re.match(r"c\d+\.py$", n):
+            mod = importlib.import_module("props." + n[:-3])
+            for e in getattr(mod, "GEN", []):
+                if e not in table:
+                    table.append(e)
+    return table
 
 
 def repo_rev():
@@ -121,7 +129,7 @@ def regen():
     gdir = os.path.join(COQ, "gen")
     os.makedirs(gdir, exist_ok=True)
     res = {}
-    for name, mode, srcs in GEN:
+    for name, mode, srcs in gen_table():
         dst = os.path.join(gdir, name)
         rc, so, se = sh2([exe, mode] + [os.path.join(REPO, s) for s in srcs], timeout=120)
         if rc != 0:
@@ -156,7 +164,7 @@ def coq_files():
                     fs.append(os.path.relpath(os.path.join(d, n), COQ))
     # generated files that failed to regenerate are still named, so that their
     # dependents fail instead of silently using nothing
-    for name, _, _ in GEN:
+    for name, _, _ in gen_table():
         p = os.path.join("gen", name)
         if p not in fs:
             fs.append(p)
